@@ -29,6 +29,62 @@ pub enum Case {
     },
     /// decoder `kind` applied to a raw attribute of type `ty`
     WrongType { kind: Kind, ty: u16, value: Hex },
+    /// public helpers the decoders are built from: `Userhash::compute`, `RawAttribute::check_type_and_len`
+    Helper { user: String, realm: String, ty: u16, ask_ty: u16, len: u16, lo: u16, hi: u16, range_kind: u8 },
+}
+
+fn helper(user: &str, realm: &str, ty: u16, ask_ty: u16, len: u16, lo: u16, hi: u16, range_kind: u8, st: &mut Stats) -> TestResult {
+    // USERHASH value = SHA-256(username ":" realm), RFC 8489 s14.4 (strings here are printable ASCII,
+    // on which the OpaqueString profile is the identity)
+    let mut input = user.as_bytes().to_vec();
+    input.push(b':');
+    input.extend_from_slice(realm.as_bytes());
+    let want = crate::refimpl::sha256(&input);
+    let got = guard(|| Userhash::compute(user, realm)).map_err(|p| Fail::new("c08-panic", format!("Userhash::compute panicked: {}", p)))?;
+    ensure!(got == want, "c08-encode", "Userhash::compute({:?}, {:?}) = {}, SHA-256(user:realm) is {}", user, realm, hex(&got), hex(&want));
+    let uh = Userhash::new(got);
+    ensure!(uh.hash() == &want && *uh.to_raw().value == want[..], "c08-encode", "Userhash::new(h) does not carry h");
+    // the length / type guard every decoder starts with
+    let value = vec![0x41u8; len as usize];
+    let raw = RawAttribute::new(AttributeType::new(ty), &value);
+    let (lo, hi) = (lo as usize, hi as usize);
+    let l = len as usize;
+    let (res, inside, what) = match range_kind % 6 {
+        0 => (guard(|| raw.check_type_and_len(AttributeType::new(ask_ty), lo..hi)), l >= lo && l < hi, format!("{}..{}", lo, hi)),
+        1 => (guard(|| raw.check_type_and_len(AttributeType::new(ask_ty), lo..=hi)), l >= lo && l <= hi, format!("{}..={}", lo, hi)),
+        2 => (guard(|| raw.check_type_and_len(AttributeType::new(ask_ty), lo..)), l >= lo, format!("{}..", lo)),
+        3 => (guard(|| raw.check_type_and_len(AttributeType::new(ask_ty), ..hi)), l < hi, format!("..{}", hi)),
+        4 => (guard(|| raw.check_type_and_len(AttributeType::new(ask_ty), ..=hi)), l <= hi, format!("..={}", hi)),
+        _ => (guard(|| raw.check_type_and_len(AttributeType::new(ask_ty), ..)), true, "..".to_string()),
+    };
+    let res = res.map_err(|p| Fail::new("c08-panic", format!("check_type_and_len panicked: {}", p)))?;
+    if ty != ask_ty {
+        ensure!(
+            matches!(res, Err(StunParseError::WrongAttributeImplementation)),
+            "c08-wrongtype",
+            "check_type_and_len({:#06x}, {}) on a raw attribute of type {:#06x} gives {:?}",
+            ask_ty,
+            what,
+            ty,
+            res
+        );
+        st.class("helper: type guard, other type");
+    } else {
+        ensure!(
+            res.is_ok() == inside && !matches!(res, Err(StunParseError::WrongAttributeImplementation)),
+            "c08-length",
+            "check_type_and_len({:#06x}, {}) on a {}-byte value of that type gives {:?}",
+            ask_ty,
+            what,
+            l,
+            res
+        );
+        st.class(if inside { "helper: length guard, inside" } else { "helper: length guard, outside" });
+        if l == lo || l == hi || l + 1 == lo || l == hi + 1 || l + 1 == hi {
+            st.nontrivial(digest(&(ty, l, lo, hi, range_kind % 6)));
+        }
+    }
+    Ok(())
 }
 
 fn boundaries(kind: Kind) -> &'static [usize] {
@@ -80,6 +136,7 @@ fn stable_reencode(kind: Kind, t: &Typed, tid: u128) -> TestResult {
 fn test(c: &Case, st: &mut Stats) -> TestResult {
     st.eval();
     match c {
+        Case::Helper { user, realm, ty, ask_ty, len, lo, hi, range_kind } => return helper(user, realm, *ty, *ask_ty, *len, *lo, *hi, *range_kind, st),
         Case::Decode { kind, value, tid } => {
             let (kind, tid) = (*kind, *tid);
             let v = &value.0;
@@ -762,6 +819,50 @@ pub fn run(ctx: &Ctx) -> EvidenceMeta {
         });
     }
     ctx.enumerate("encode-lengths", &items, test);
+
+    // ---- public helpers --------------------------------------------------------------------------
+    ctx.proptest(
+        "helpers",
+        ctx.n(40_000, 1_000_000),
+        || {
+            (
+                "[ -~]{1,40}",
+                "[ -~]{1,40}",
+                prop_oneof![Just(0x0006u16), Just(0x001e), Just(0x8028), any::<u16>()],
+                any::<u16>(),
+                any::<bool>(),
+                0u16..800,
+                0u16..800,
+                0u16..12,
+                any::<u8>(),
+                any::<u8>(),
+            )
+                .prop_map(|(user, realm, ty, other, same, lo, span, near, range_kind, pick)| {
+                    // an exclusive upper bound of 0 (`..0`, `0..0`) is an empty range no decoder passes; the
+                    // helper computes `end - 1` for its error report there (DESIGN, corrections 7)
+                    let hi = lo.saturating_add(if pick % 3 == 0 { 0 } else { span }).max(1);
+                    // lengths next to the bounds in most cases
+                    let len = match pick % 5 {
+                        0 => lo.saturating_sub(near % 3),
+                        1 => lo + near % 3,
+                        2 => hi.saturating_sub(near % 3),
+                        3 => hi + near % 3,
+                        _ => span,
+                    };
+                    Case::Helper {
+                        user,
+                        realm,
+                        ty,
+                        ask_ty: if same { ty } else { other },
+                        len,
+                        lo,
+                        hi,
+                        range_kind,
+                    }
+                })
+        },
+        test,
+    );
 
     EvidenceMeta {
         rule: "decode: for each of the 19 decoders every value length 0..=800 with rotating contents (random, ASCII, multi-byte UTF-8 \
